@@ -6,6 +6,7 @@ import numpy as np
 
 from ..core import Exhausted
 from ..gen import pauliops as G
+from ..gen import paulimag as GM
 from ..ref import paulidense as D
 
 ID = "C03"
@@ -23,23 +24,33 @@ RULE = (
     "duplicates, zero coefficients, constants, empty sum, qubit indices with gaps up to 12) under + - *; scalars = "
     "int/float/complex/bool on either side of + - * and as divisor; powers = exponents 0-5 (and rejected ones); "
     "simplify = un-simplified sums incl. coefficients around the 1e-8 drop threshold; equality = pairs denoting "
-    "the same matrix by different routes / term orders / coefficient types and pairs differing by >= 1e-3. "
+    "the same matrix by different routes / term orders / coefficient types and pairs differing by >= 1e-3; "
+    "magnitudes = coefficients from 1e-5 to 1e6 (dyadic: k*2^e, e = -10..17): like terms with LARGE coefficients that "
+    "nearly cancel (residual/|coefficient| log-uniform in 1e-10..1e-3, residual itself >= 100x the 1e-8 drop threshold) "
+    "through simplify, + and - of terms / sums / builtin sum, product cross terms that nearly cancel, sums mixing very "
+    "large and very small coefficients, scalars and divisors of extreme size; history = one to three operands that are "
+    "first USED (hashed, put in sets / dict keys, compared, simplified, printed, circuits / cached properties read, "
+    "arithmetic discarded) and only then combined (scalar * and /, + - * **, chains through earlier results); each "
+    "result is compared in both directions with an operator built independently from its own terms in another order "
+    "and with a perturbed one, equal terms must hash alike, and the operands must still denote their matrices. "
     "non-trivial = a Y operator or two different letters on one qubit is involved, or a sum with >= 2 terms; "
     "distinct = distinct canonical case strings"
 )
 ASSUMPTIONS = [
     "oracle = dense matrices filled by bit arithmetic on the order-preserving relabelling of the used qubits (<= 7)",
-    "equality is judged only when the two matrices agree to 1e-10 (expect ==) or some coefficient differs by >= 1e-3*max(1,|c|) (expect !=), "
+    "equality is judged only when the two matrices agree to 1e-10 (expect ==) or some coefficient differs by >= 1e-4*max(1,|c|) (expect !=), "
     "and no coefficient lies within 1e-9 of a round(c*1e6) hash-bucket boundary; in between the property gives no verdict",
     "equality is judged between simplified operators only (PauliTerm, or PauliSum without like terms and without |c|<=1e-8); "
     "a plain number is lifted to the constant term c*I, so 'empty sum == 0' compares with the un-simplified term 0*I and is "
     "counted as out of domain (observed result recorded under observed['eq:empty-sum-vs-zero-number'])",
     "numpy scalars as operands and non-finite coefficients are outside the workload",
+    "operand-unchanged: an arithmetic operation, comparison, hash or simplification leaves the matrices denoted by its "
+    "operands as they were (otherwise 'the corresponding matrix operation' on those operands is not defined for the next use)",
 ]
 _OPS = ["__add__", "__radd__", "__sub__", "__rsub__", "__mul__", "__rmul__", "__truediv__", "__pow__", "__eq__"]
 DECIDING = (
     [f"PauliTerm.{o}" for o in _OPS] + [f"PauliSum.{o}" for o in _OPS]
-    + ["PauliSum.simplify", "PauliTerm.__hash__", "hash-consistent", "eq-symmetric"]
+    + ["PauliSum.simplify", "PauliTerm.__hash__", "hash-consistent", "eq-symmetric", "operand-unchanged"]
 )
 BRANCHES = [
     "_efficient_exponentiation:zero", "_efficient_exponentiation:odd", "_efficient_exponentiation:even",
@@ -48,14 +59,14 @@ BRANCHES = [
 ]
 EXHAUSTIVE = {"pairs_exh": "all ordered pairs of Pauli strings on 2 qubits (quick: 256) / 3 qubits (thorough: 4096), "
                            "each with a dyadic and a generic complex coefficient pair"}
-BUDGET = {"quick": (4, 25, 4000), "thorough": (16, 150, 100000)}
+BUDGET = {"quick": (4, 25, 3200), "thorough": (16, 150, 100000)}
 
 MAXN = 7
 _LIB = None
 
 
 def classes(tier):
-    return ["pairs_exh", "sums", "scalars", "powers", "simplify", "equality"]
+    return ["pairs_exh", "sums", "scalars", "powers", "simplify", "equality", "magnitudes", "history"]
 
 
 # ----------------------------------------------------------------------------- oracle helpers
@@ -317,7 +328,7 @@ def _mk_eq(hook):
                 mon.out_of_domain(hook)
                 return
             expected = True
-        elif l2 / math.sqrt(k) >= 1e-3 * max(1.0, cmax):
+        elif l2 / math.sqrt(k) >= EQ_GREY * max(1.0, cmax):
             expected = False
         else:
             mon.note("eq:grey-zone")
@@ -346,24 +357,30 @@ def _post_hash(mon, call):
         mon.ok(hook)
 
 
+# The library's term equality is numpy.allclose: |a - b| <= 1e-8 + 1e-5 * |b|.  Between 1e-8 and that bound the
+# statement's "1e-8 coefficient tolerance" and the library's tolerance disagree (recorded in DESIGN.md as an
+# observation, not judged); from ten times the relative part upwards both readings demand "not equal".
+EQ_GREY = 1e-4
+
+
 def install(mon, reach):
     from orquestra.quantum.operators import _pauli_operators as PO
 
     D.selfcheck()
     T, S = PO.PauliTerm, PO.PauliSum
-    reach.watch(PO._efficient_exponentiation, "_efficient_exponentiation", markers={
+    reach.watch(getattr(PO, "_efficient_exponentiation", None), "_efficient_exponentiation", markers={
         "zero": r"\.identity\(\)", "odd": r"return pauli_rep \* _efficient_exponentiation",
         "even": r"return intermediate_result \* intermediate_result"})
-    reach.watch(T._multiply_by_operator, "PauliTerm._multiply_by_operator", markers={
+    reach.watch(getattr(T, "_multiply_by_operator", None), "PauliTerm._multiply_by_operator", markers={
         "new": r"^\s*result_ops\[index\] = op\s*$", "cancel": r"del result_ops\[index\]",
         "third": r"result_ops\[index\] = OPERATOR_MAP"})
     reach.watch(S.simplify, "PauliSum.simplify", markers={
         "single": r"terms\.append\(first_term\)", "merge": r"terms\.append\(term_list\[0\]\.copy"})
-    reach.watch(T.__mul__, "PauliTerm.__mul__")
-    reach.watch(S.__mul__, "PauliSum.__mul__")
-    reach.watch(T.__eq__, "PauliTerm.__eq__")
-    reach.watch(S.__eq__, "PauliSum.__eq__")
-    reach.watch(T.__hash__, "PauliTerm.__hash__")
+    reach.watch(getattr(T, "__mul__", None), "PauliTerm.__mul__")
+    reach.watch(getattr(S, "__mul__", None), "PauliSum.__mul__")
+    reach.watch(getattr(T, "__eq__", None), "PauliTerm.__eq__")
+    reach.watch(getattr(S, "__eq__", None), "PauliSum.__eq__")
+    reach.watch(getattr(T, "__hash__", None), "PauliTerm.__hash__")
     for cls, cname in ((T, "PauliTerm"), (S, "PauliSum")):
         for attr, sym, refl in (("__add__", "+", False), ("__radd__", "+", True), ("__sub__", "-", False),
                                 ("__rsub__", "-", True), ("__mul__", "*", False), ("__rmul__", "*", True),
@@ -534,6 +551,10 @@ def run_case(ctx):
 
     if cls == "equality":
         return _equality_case(ctx, regime, pool)
+    if cls == "magnitudes":
+        return _magnitudes_case(ctx, regime, pool)
+    if cls == "history":
+        return _history_case(ctx, regime, pool)
     raise ValueError(cls)
 
 
@@ -654,3 +675,374 @@ def _equality_case(ctx, regime, pool):
             ctx.check("hash-consistent", hash(ta) == hash(tb), lambda: f"{ta!r} == {tb!r} but the hashes differ")
     if same and variant == "reorder":
         ctx.mon.note("eq:reordered-sums-equal")
+
+
+# ----------------------------------------------------------------------------- class: magnitudes
+def _distinct_ops(rng, pool, n, taken=()):
+    out, seen = [], set(taken)
+    for _ in range(40):
+        if len(out) >= n:
+            break
+        ops = G.rand_ops(rng, pool, yheavy=rng.random() < 0.3)
+        if ops not in seen:
+            seen.add(ops)
+            out.append(ops)
+    return out
+
+
+def _mixed_scale_sum(rng, pool, regime, n, taken=()):
+    """n terms on distinct strings whose coefficients lie orders of magnitude apart"""
+    out = []
+    for i, ops in enumerate(_distinct_ops(rng, pool, n, taken)):
+        pick = [GM.large, GM.small, GM.coeff][i] if i < 2 else rng.choice([GM.large, GM.small, GM.coeff])
+        out.append((ops, pick(rng, regime)))
+    rng.shuffle(out)
+    return out
+
+
+def _magnitudes_case(ctx, regime, pool):
+    """Behaviour that depends on the SIZE of the coefficients.  Nothing new is demanded: the monitors of
+    + - * / simplify judge every call with their usual tolerance (1e-12 * scale, + 1e-8 per term for generic
+    floats); this class only feeds them operands whose coefficients are far from 1."""
+    T, S = _lib()
+    rng = ctx.rng
+    mode = rng.choice(["near-cancel", "near-cancel", "mixed-scale", "scalar-scale", "cross"])
+
+    if mode == "near-cancel":
+        # like terms c1 + c2 (+ c3) = c, all large, meet -(c - r): what is left is r >> 1e-8
+        c, r = GM.cancelling(rng, regime)
+        ops = G.rand_ops(rng, pool, yheavy=rng.random() < 0.3)
+        plus = [(ops, p) for p in GM.split(rng, regime, c, rng.choice([1, 1, 2, 3]))]
+        minus = (ops, -(c - r))
+        filler = _mixed_scale_sum(rng, pool, regime, rng.randint(0, 3), taken=[ops]) if rng.random() < 0.7 else []
+        route = rng.choice(["simplify", "sum-sub", "sum-add", "term-sub", "term-add", "builtin-sum", "scaled"])
+        ctx.describe(
+            f"magnitudes {regime} near-cancel/{route} like terms {G.fmt_sum(plus)} against {G.fmt_term(minus)} "
+            f"(residual {r!r}) beside {G.fmt_sum(filler)}", True)
+        if route == "simplify":
+            specs = plus + [minus] + filler
+            rng.shuffle(specs)
+            s = _build(specs)
+            s.simplify().simplify()
+        elif route in ("sum-sub", "sum-add", "scaled"):
+            k = rng.randint(0, len(filler))
+            xs, ys = plus + filler[:k], [minus] + filler[k:]
+            rng.shuffle(xs)
+            rng.shuffle(ys)
+            if route == "sum-add":
+                x, y = _build(xs), _build(ys)
+                x + y
+                y + x
+            else:
+                # the subtrahend carries +(c - r); shared filler terms cancel exactly
+                ys = [(o, -v) if o == ops else (o, v) for o, v in ys] + (filler[:1] if filler and rng.random() < 0.5 else [])
+                x, y = _build(xs), _build(ys)
+                d = x - y
+                y - x
+                x + -1 * y
+                if route == "scaled":
+                    d * rng.choice([200, 0.5, -4, 2j])
+        elif route in ("term-sub", "term-add"):
+            a = T(dict(ops), c)
+            if route == "term-sub":
+                b = T(dict(ops), c - r)
+                a - b
+                b - a
+                S([a]) - b
+            else:
+                b = T(dict(ops), -(c - r))
+                a + b
+                b + a
+                a + S([b])
+        else:
+            terms = [_build(t) for t in plus + [minus] + filler]
+            rng.shuffle(terms)
+            sum(terms)
+        return
+
+    if mode == "mixed-scale":
+        # no like terms at all: a small term beside a huge one is still a term
+        a = _mixed_scale_sum(rng, pool, regime, rng.randint(2, 4))
+        b = _mixed_scale_sum(rng, pool, regime, rng.randint(1, 3))
+        s = G.scalar(rng, regime)
+        ctx.describe(f"magnitudes {regime} mixed-scale {G.fmt_sum(a)} with {G.fmt_sum(b)} and scalar {s!r} "
+                     f"(simplify, + - * both ways, * scalar, + scalar)", True)
+        x, y = _build(a), _build(b)
+        x.simplify()
+        x + y
+        x - y
+        y - x
+        x * y
+        y * x
+        x * s
+        s * x
+        x + s
+        t = _build(b[0])
+        x + t
+        t - x
+        t * x
+        return
+
+    if mode == "scalar-scale":
+        # results of size 1e-6 ... 1e8: nothing may be dropped or rounded away
+        lo, hi = (-6, 14) if regime == "dyadic" else (-2.0, 5.0)
+        a = [(o, GM.coeff(rng, regime, lo, hi)) for o in _distinct_ops(rng, pool, rng.randint(1, 4))]
+        spec = a[0] if len(a) == 1 and rng.random() < 0.6 else a
+        s = GM.scalar(rng, regime)
+        ctx.describe(f"magnitudes {regime} scalar-scale operand {G.fmt(spec)} scalar {s!r} "
+                     f"(a*s s*a a/s a+s s-a (a*s)/s)", _nontrivial(spec))
+        x = _build(spec)
+        p = x * s
+        s * x
+        x / s
+        x + s
+        s - x
+        p / s
+        return
+
+    # cross: (a U + b V)(c U + d V): the two cross terms a*d and b*c are large and nearly cancel
+    U, V = _distinct_ops(rng, pool, 2)
+    sigma = -1 if sum(1 for q, o in V if q in dict(U) and dict(U)[q] != o) % 2 else 1
+    if regime == "dyadic":
+        g = rng.randint(18, 29)  # log2 of |a*d| / |residual|
+        e = rng.randint(max(8, g - 12), min(17, g - 2))
+        a = 2.0**e
+        b = rng.choice([1, -1, 2, 1j, -1j, -2j]) * a
+        c = rng.choice([1, -1, 3, 1j, -1j]) * a
+        rho = rng.choice([-1, 1]) * 2.0 ** (e - g)  # residual a*rho = 2^(2e-g), rho a multiple of 2^-12
+    else:
+        u = rng.uniform(1.5, 3.0)
+        a = GM.generic_real(rng, u, u)
+        b = GM.generic(rng, u, u)
+        c = GM.generic(rng, u, u)
+        rho = rng.choice([-1, 1]) * 10.0 ** rng.uniform(-6.0, -3.0) * 10.0**u / abs(a)
+    d = -sigma * (b * c / a) + rho
+    left, right = [(U, a), (V, b)], [(U, c), (V, d)]
+    ctx.describe(f"magnitudes {regime} cross {G.fmt_sum(left)} * {G.fmt_sum(right)} (both orders; cross terms leave "
+                 f"{a * rho!r})", True)
+    x, y = _build(left), _build(right)
+    x * y
+    y * x
+    return
+
+
+# ----------------------------------------------------------------------------- class: history
+_PRIMERS = ["hash", "set", "dict", "eq-fresh", "eq-other", "simplify", "repr", "props", "circuit", "arith", "hash-sum", "copy"]
+_DERIVE = ["a*k", "k*a", "a/k", "a+a", "a-b", "k*a-a", "a+b", "b+a", "a*b", "a**2", "a**3", "a+k", "k-a", "a*1",
+           "(a*k)/k", "a-a", "simplify", "copy", "-a"]
+
+
+def _fresh(rng, obj, tl=None):
+    """an operator with the same terms as `obj`, built from scratch through the constructors, terms shuffled"""
+    T, S = _lib()
+    tl = list(D.term_list(obj) if tl is None else tl)
+    if isinstance(obj, T):
+        return T(dict(tl[0][0]), tl[0][1])
+    rng.shuffle(tl)
+    return S([T(dict(reversed(ops)), c) for ops, c in tl])
+
+
+def _prime(ctx, rng, how, x, others):
+    T, S = _lib()
+    if how == "hash":
+        for t in x.terms:
+            hash(t)
+    elif how == "set":
+        len(set(x.terms))
+    elif how == "dict":
+        seen = {t: i for i, t in enumerate(x.terms)}
+        for t in x.terms:
+            seen[t]
+    elif how == "eq-fresh":
+        _eq_both(ctx, x, _fresh(rng, x))
+    elif how == "eq-other":
+        _eq_both(ctx, x, rng.choice(others))
+    elif how == "simplify":
+        S(list(x.terms)).simplify() if isinstance(x, T) else x.simplify()
+    elif how == "repr":
+        repr(x)
+        str(x)
+    elif how == "props":
+        x.qubits, x.n_qubits, x.is_ising, x.is_constant, len(x)
+        if isinstance(x, S):
+            x.constant_term
+    elif how == "circuit":
+        x.circuit if isinstance(x, T) else x.circuits
+    elif how == "arith":
+        x * 3
+        x + x
+        x**2
+        2 - x
+    elif how == "hash-sum":
+        hash(x)
+    elif how == "copy":
+        for t in x.terms:
+            hash(t.copy())
+            t.copy(new_coefficient=1)
+
+
+def _derive(rng, how, a, b, k):
+    T, S = _lib()
+    if how == "a*k":
+        return a * k
+    if how == "k*a":
+        return k * a
+    if how == "a/k":
+        return a / k
+    if how == "a+a":
+        return a + a
+    if how == "a-b":
+        return a - b
+    if how == "k*a-a":
+        return k * a - a
+    if how == "a+b":
+        return a + b
+    if how == "b+a":
+        return b + a
+    if how == "a*b":
+        return a * b
+    if how == "a**2":
+        return a**2
+    if how == "a**3":
+        return a**3
+    if how == "a+k":
+        return a + k
+    if how == "k-a":
+        return k - a
+    if how == "a*1":
+        return a * 1
+    if how == "(a*k)/k":
+        return (a * k) / k
+    if how == "a-a":
+        return a - a
+    if how == "simplify":
+        return a.simplify() if isinstance(a, S) else S([a]).simplify()
+    if how == "copy":
+        return a.copy(new_coefficient=k) if isinstance(a, T) else S([t.copy() for t in a.terms])
+    if how == "-a":
+        return -1 * a
+    raise ValueError(how)
+
+
+def _dense_of(tl, qmap, n):
+    return D.dense(tl, n, qmap)
+
+
+def _history_case(ctx, regime, pool):
+    """State kept inside the objects (cached hashes, cached circuits / properties, shared dictionaries or term
+    lists): operands are used first and combined afterwards, results are used as operands again."""
+    T, S = _lib()
+    rng = ctx.rng
+    small = pool[:3] if len(pool) > 3 else pool
+    nops = rng.randint(1, 3)
+    specs = []
+    for _ in range(nops):
+        if rng.random() < 0.4:
+            specs.append(_distinct_terms(rng, small, regime, 1)[0])
+        else:
+            specs.append(_distinct_terms(rng, small, regime, rng.randint(1, 4)))
+    # a further operand that is tied to one of the others: it shares that operand's term objects / term list
+    # (state kept in a shared object), or is a near-identical twin - same strings, one coefficient off by less
+    # than the 1e-6 hash resolution, by 1e-3 or by 1/8 - that goes through the same derivations (a table keyed
+    # by something coarser than the value hands the twin the other's result)
+    extra = None
+    r = rng.random()
+    if r < 0.2:
+        extra = (rng.choice(["same-list", "same-terms", "term-of"]), rng.randrange(nops), None)
+    elif r < 0.45:
+        extra = ("twin", rng.randrange(nops), rng.choice([4e-7, -2.5e-7, 3e-7j, 1e-3, 0.125, -0.125j]))
+    if extra is not None:
+        kind, src, delta = extra
+        base = specs[src] if isinstance(specs[src], list) else [specs[src]]
+        if kind == "twin":
+            m = rng.randrange(len(base))
+            tw = [(o, c + delta) if n == m else (o, c) for n, (o, c) in enumerate(base)]
+            specs.append(tw if isinstance(specs[src], list) else tw[0])
+        elif kind == "same-list":
+            specs.append(list(base))
+        elif kind == "same-terms":
+            specs.append(list(reversed(base)))
+        else:
+            specs.append(base[0])
+    primers = [(rng.randrange(len(specs)), rng.choice(_PRIMERS)) for _ in range(rng.randint(1, 3))]
+    steps = []
+    for _ in range(rng.randint(2, 3)):
+        how = rng.choice(_DERIVE)
+        steps.append((how, rng.randrange(8), rng.randrange(8), G.scalar(rng, regime), rng.random() < 0.5,
+                      rng.choice(_PRIMERS) if rng.random() < 0.3 else None))
+    ctx.describe(
+        f"history {regime} operands " + " ; ".join(G.fmt(s) for s in specs)
+        + (f" (last one: {extra[0]} of #{extra[1]})" if extra else "")
+        + " | used: " + ",".join(f"{h}(#{i})" for i, h in primers)
+        + " | then: " + ",".join(f"{h}[{i},{j};k={k!r}{';keep' if keep else ''}{';' + p if p else ''}]" for h, i, j, k, keep, p in steps),
+        _nontrivial(*specs) or len(specs) > 1,
+    )
+    objs = [_build(s) for s in specs[:nops]]
+    twin_of = None
+    if extra is not None:
+        kind, src, _ = extra
+        o = objs[src]
+        if kind == "twin":
+            objs.append(_build(specs[-1]))
+            twin_of = o
+        elif kind == "same-list":
+            objs.append(S(o.terms) if isinstance(o, S) else S([o]))
+        elif kind == "same-terms":
+            objs.append(S(list(reversed(o.terms))))
+        else:
+            objs.append(o.terms[0])
+    before = [D.term_list(o) for o in objs]
+    for i, how in primers:
+        _prime(ctx, rng, how, objs[i], objs)
+
+    live = list(objs)
+    for how, i, j, k, keep, primer in steps:
+        a, b = live[i % len(live)], live[j % len(live)]
+        if twin_of is not None and (a is twin_of or b is twin_of):
+            # the same derivation on the near-identical twin first (judged by the monitors)
+            _derive(rng, how, objs[-1] if a is twin_of else a, objs[-1] if b is twin_of else b, k)
+        res = _derive(rng, how, a, b, k)
+        tl = D.term_list(res)
+        if tl is None:
+            continue
+        # the result against an operator that was never part of this history (the == monitor decides by matrices)
+        fresh = _fresh(rng, res, tl)
+        same = _eq_both(ctx, res, fresh)
+        if same and len(tl) <= 6:
+            want = {tuple(ops): c for ops, c in tl}
+            for t in res.terms:
+                key = tuple(sorted((int(q), str(o)) for q, o in t.operations))
+                twin = T(dict(key), want.get(key, t.coefficient))
+                ctx.check("hash-consistent", hash(t) == hash(twin),
+                          lambda: f"{t!r} (from {how} in a history) and the freshly built {twin!r} are equal but hash differently")
+        if tl:
+            # ... and against one that differs in one coefficient or one letter
+            other = list(tl)
+            m = rng.randrange(len(other))
+            cmax = max(abs(c) for _, c in other)
+            if rng.random() < 0.6 or not other[m][0]:
+                other[m] = (other[m][0], other[m][1] + rng.choice([0.125, -0.25, 0.125j]) * max(1.0, cmax))
+            else:
+                ops = list(other[m][0])
+                n = rng.randrange(len(ops))
+                ops[n] = (ops[n][0], rng.choice([o for o in "XYZ" if o != ops[n][1]]))
+                if any(tuple(ops) == tuple(o) for o, _ in other):
+                    ops = None
+                other[m] = (ops, other[m][1]) if ops is not None else (other[m][0], other[m][1] + max(1.0, cmax))
+            wrong = _fresh(rng, res, other)
+            (res == wrong) if rng.random() < 0.5 else (wrong == res)
+        if primer:
+            _prime(ctx, rng, primer, res, live)
+        if keep:
+            live.append(res)
+
+    for spec, o, tl0 in zip(specs, objs, before):
+        tl1 = D.term_list(o)
+        want = [(sorted(ops), complex(c)) for ops, c in (spec if isinstance(spec, list) else [spec])]
+        qmap, n = D.compress(want, tl0 or [], tl1 or [])
+        ok = tl0 is not None and tl1 is not None and n <= MAXN
+        if ok:
+            M0 = _dense_of(want, qmap, n)
+            ok = _maxabs(_dense_of(tl0, qmap, n) - M0) == 0 and _maxabs(_dense_of(tl1, qmap, n) - M0) == 0
+        ctx.check("operand-unchanged", ok,
+                  lambda: f"operand built as {G.fmt(spec)} reads {tl0!r} after construction and {tl1!r} after the history")
